@@ -1,5 +1,82 @@
 import Ptn.C02.Model
-/-! Line-protocol handler for the C02 model (core Lean only). -/
+/-! Line-protocol handler for the C02 model (core Lean only).
+
+  nodeseq <op> <op> …      Node machine, starting from an unlinked node.  Answer: one field per op
+                           separated by `;` – the state `perm|shape|parent|children` after the op or `err`
+                           (after `err` the state is the one before the op).
+    ops:  link:<shape>   reset   rt:<shape>:<perm|none>   o2p:<pid>:<k|none>   o2c:<cid>:<k>
+          o2cs:<cid>=<k>,…   p2o   c2o:<cid>   cs2o:<cid>,…   xch:<a0>:<a1>:<b0>:<b1>   swap:<c1>:<c2>
+    lists are comma separated, the empty list is `-`.
+-/
 namespace Ptn.C02
-def handle (args : List String) : String := "bad-op"
+
+def parseList (s : String) : Option (List Nat) :=
+  if s = "-" then some [] else (s.splitOn ",").mapM (fun t => t.toNat?)
+
+def showList (l : List Nat) : String :=
+  if l.isEmpty then "-" else ",".intercalate (l.map toString)
+
+def parsePairs (s : String) : Option (List (Nat × Nat)) :=
+  if s = "-" then some [] else
+    (s.splitOn ",").mapM fun t =>
+      match t.splitOn "=" with
+      | [a, b] => match a.toNat?, b.toNat? with
+        | some x, some y => some (x, y)
+        | _, _ => none
+      | _ => none
+
+def parseNodeOp (tok : String) : Option NodeOp :=
+  match tok.splitOn ":" with
+  | ["link", sh] => (parseList sh).map NodeOp.link
+  | ["reset"] => some .reset
+  | ["rt", sh, p] =>
+    match parseList sh with
+    | none => none
+    | some sh' =>
+      if p = "none" then some (.replaceTensor sh' none)
+      else (parseList p).map (fun p' => .replaceTensor sh' (some p'))
+  | ["o2p", pid, k] =>
+    match pid.toNat? with
+    | none => none
+    | some pid' =>
+      if k = "none" then some (.o2p pid' none) else k.toNat?.map (fun k' => .o2p pid' (some k'))
+  | ["o2c", cid, k] =>
+    match cid.toNat?, k.toNat? with
+    | some c, some k' => some (.o2c c k')
+    | _, _ => none
+  | ["o2cs", d] => (parsePairs d).map NodeOp.o2cs
+  | ["p2o"] => some .p2o
+  | ["c2o", cid] => cid.toNat?.map NodeOp.c2o
+  | ["cs2o", cs] => (parseList cs).map NodeOp.cs2o
+  | ["xch", a0, a1, b0, b1] =>
+    match a0.toNat?, a1.toNat?, b0.toNat?, b1.toNat? with
+    | some a, some b, some c, some d => some (.xch a b c d)
+    | _, _, _, _ => none
+  | ["swap", c1, c2] =>
+    match c1.toNat?, c2.toNat? with
+    | some a, some b => some (.swap a b)
+    | _, _ => none
+  | _ => none
+
+def showNode (s : NodeS) : String :=
+  let par := match s.parent with
+    | some p => toString p
+    | none => "-"
+  s!"{showList s.perm}|{showList s.shape}|{par}|{showList s.children}"
+
+def runNodeSeq (ops : List NodeOp) : String :=
+  let r := ops.foldl (fun (acc : NodeS × List String) op =>
+    match acc.1.step op with
+    | some s' => (s', showNode s' :: acc.2)
+    | none => (acc.1, "err" :: acc.2)) (NodeS.empty, [])
+  ";".intercalate r.2.reverse
+
+def handle (args : List String) : String :=
+  match args with
+  | "nodeseq" :: toks =>
+    match toks.mapM parseNodeOp with
+    | some ops => if ops.isEmpty then "bad-op" else runNodeSeq ops
+    | none => "bad-op"
+  | _ => "bad-op"
+
 end Ptn.C02
